@@ -278,6 +278,160 @@ func acceptShape(fd *ast.FuncDecl) []string {
 	return out
 }
 
+// ---- Routers.Del (pkg/util/vhost/router.go): the statements as tokens, independent of local names ----
+func paramNames(fd *ast.FuncDecl) []string {
+	var out []string
+	for _, f := range fd.Type.Params.List {
+		for _, n := range f.Names {
+			out = append(out, n.Name)
+		}
+	}
+	return out
+}
+
+func isIdent(e ast.Expr, name string) bool {
+	id, ok := e.(*ast.Ident)
+	return ok && id.Name == name
+}
+
+func selName(e ast.Expr) string {
+	if s, ok := e.(*ast.SelectorExpr); ok {
+		return s.Sel.Name
+	}
+	return ""
+}
+
+func delToken(st ast.Stmt, domain, location, user string) string {
+	switch s := st.(type) {
+	case *ast.ExprStmt:
+		if c, ok := s.X.(*ast.CallExpr); ok {
+			switch {
+			case selName(c.Fun) == "Lock":
+				return "Lock"
+			case isIdent(c.Fun, "delete") && len(c.Args) == 2:
+				return "DeleteFrom " + selName(c.Args[0])
+			}
+		}
+	case *ast.DeferStmt:
+		if selName(s.Call.Fun) == "Unlock" {
+			return "DeferUnlock"
+		}
+	case *ast.AssignStmt:
+		if len(s.Rhs) == 1 {
+			if c, ok := s.Rhs[0].(*ast.CallExpr); ok {
+				if selName(c.Fun) == "ToLower" && len(c.Args) == 1 && isIdent(c.Args[0], domain) && len(s.Lhs) == 1 && isIdent(s.Lhs[0], domain) {
+					return "LowerDomain"
+				}
+				if isIdent(c.Fun, "make") && len(s.Lhs) == 1 {
+					return "NewList"
+				}
+			}
+			if ix, ok := s.Rhs[0].(*ast.IndexExpr); ok && len(s.Lhs) == 2 && s.Tok == token.DEFINE {
+				if selName(ix.X) == "indexByDomain" && isIdent(ix.Index, domain) {
+					return "LookupDomain"
+				}
+				if isIdent(ix.Index, user) {
+					return "LookupUser"
+				}
+			}
+		}
+		if len(s.Lhs) == 1 && s.Tok == token.ASSIGN {
+			if ix, ok := s.Lhs[0].(*ast.IndexExpr); ok {
+				if isIdent(ix.Index, user) {
+					return "StoreUserBucket"
+				}
+				if selName(ix.X) == "indexByDomain" {
+					return "StoreDomainBucket"
+				}
+			}
+		}
+	case *ast.IfStmt:
+		if u, ok := s.Cond.(*ast.UnaryExpr); ok && u.Op == token.NOT && s.Else == nil && s.Init == nil && len(s.Body.List) == 1 {
+			if r, ok := s.Body.List[0].(*ast.ReturnStmt); ok && len(r.Results) == 0 {
+				return "IfMissingReturn"
+			}
+		}
+	case *ast.RangeStmt:
+		// for _, vr := range vrs { if vr.location != location { new = append(new, vr) } }
+		if len(s.Body.List) == 1 {
+			if is, ok := s.Body.List[0].(*ast.IfStmt); ok && is.Else == nil && len(is.Body.List) == 1 {
+				if b, ok := is.Cond.(*ast.BinaryExpr); ok && b.Op == token.NEQ && selName(b.X) == "location" && isIdent(b.Y, location) {
+					if a, ok := is.Body.List[0].(*ast.AssignStmt); ok && len(a.Rhs) == 1 {
+						if c, ok := a.Rhs[0].(*ast.CallExpr); ok && isIdent(c.Fun, "append") {
+							return "FilterOtherLocations"
+						}
+					}
+				}
+			}
+		}
+	}
+	return "Unknown: " + show(st)
+}
+
+// ---- the comparisons a later member has to pass, per group kind ----
+// in the else-branch of `if len(…) == 0` of the group's Listen/Register: for every `if a != x || b != y …`
+// the compared fields of the receiver and the error it leads to
+func joinChecks(fd *ast.FuncDecl, recv string) []string {
+	var out []string
+	for _, st := range fd.Body.List {
+		is, ok := st.(*ast.IfStmt)
+		if !ok || is.Else == nil {
+			continue
+		}
+		b, ok := is.Cond.(*ast.BinaryExpr)
+		if !ok || b.Op != token.EQL || !strings.HasPrefix(show(b.X), "len(") {
+			continue
+		}
+		eb, ok := is.Else.(*ast.BlockStmt)
+		if !ok {
+			continue
+		}
+		for _, x := range eb.List {
+			ci, ok := x.(*ast.IfStmt)
+			if !ok {
+				continue
+			}
+			var fields []string
+			bad := false
+			var walk func(e ast.Expr)
+			walk = func(e ast.Expr) {
+				be, ok := e.(*ast.BinaryExpr)
+				if !ok {
+					bad = true
+					return
+				}
+				switch be.Op {
+				case token.LOR:
+					walk(be.X)
+					walk(be.Y)
+				case token.NEQ:
+					if s, ok := be.X.(*ast.SelectorExpr); ok && isIdent(s.X, recv) {
+						fields = append(fields, s.Sel.Name)
+					} else {
+						bad = true
+					}
+				default:
+					bad = true
+				}
+			}
+			walk(ci.Cond)
+			errName := ""
+			ast.Inspect(ci.Body, func(n ast.Node) bool {
+				if id, ok := n.(*ast.Ident); ok && strings.HasPrefix(id.Name, "Err") {
+					errName = id.Name
+				}
+				return true
+			})
+			if bad || errName == "" {
+				out = append(out, "Unknown: "+show(ci.Cond))
+				continue
+			}
+			out = append(out, strings.Join(fields, ",")+" -> "+errName)
+		}
+	}
+	return out
+}
+
 func gen() ([]byte, error) {
 	lockTargets := map[string]bool{
 		"TCPGroupCtl.Listen": true, "TCPGroup.CloseListener": true,
@@ -309,6 +463,50 @@ func gen() ([]byte, error) {
 			}
 			if shapeTargets[key] {
 				shapes[key] = acceptShape(fd)
+			}
+		}
+	}
+	// Routers.Del
+	var delShape []string
+	{
+		f, err := parser.ParseFile(fset, filepath.Join(tx.Repo, "pkg", "util", "vhost", "router.go"), nil, 0)
+		if err != nil {
+			return nil, err
+		}
+		for _, d := range f.Decls {
+			fd, ok := d.(*ast.FuncDecl)
+			if !ok || fd.Body == nil || fd.Name.Name != "Del" {
+				continue
+			}
+			if _, typ := recvOf(fd); typ != "Routers" {
+				continue
+			}
+			ps := paramNames(fd)
+			if len(ps) != 3 {
+				delShape = []string{"Unknown: parameters"}
+				continue
+			}
+			for _, st := range fd.Body.List {
+				delShape = append(delShape, delToken(st, ps[0], ps[1], ps[2]))
+			}
+		}
+	}
+	// join checks
+	checks := map[string][]string{}
+	for _, fn := range []string{"tcp.go", "http.go", "tcpmux.go"} {
+		f, err := parser.ParseFile(fset, filepath.Join(tx.Repo, "server", "group", fn), nil, 0)
+		if err != nil {
+			return nil, err
+		}
+		for _, d := range f.Decls {
+			fd, ok := d.(*ast.FuncDecl)
+			if !ok || fd.Body == nil {
+				continue
+			}
+			recv, typ := recvOf(fd)
+			key := typ + "." + fd.Name.Name
+			if key == "TCPGroup.Listen" || key == "HTTPGroup.Register" || key == "TCPMuxGroup.HTTPConnectListen" {
+				checks[key] = joinChecks(fd, recv)
 			}
 		}
 	}
@@ -344,6 +542,30 @@ func gen() ([]byte, error) {
 		first = false
 		q := make([]string, len(sh))
 		for i, s := range sh {
+			q[i] = tx.CoqString(s)
+		}
+		fmt.Fprintf(&b, "  (%s, [%s])", tx.CoqString(k), strings.Join(q, "; "))
+	}
+	b.WriteString("\n].\n\nDefinition router_del_shape : list string := [")
+	for i, t := range delShape {
+		if i > 0 {
+			b.WriteString("; ")
+		}
+		b.WriteString(tx.CoqString(t))
+	}
+	b.WriteString("].\n\nDefinition group_join_checks : list (string * list string) := [\n")
+	first = true
+	for _, k := range []string{"TCPGroup.Listen", "HTTPGroup.Register", "TCPMuxGroup.HTTPConnectListen"} {
+		ch, ok := checks[k]
+		if !ok {
+			continue
+		}
+		if !first {
+			b.WriteString(";\n")
+		}
+		first = false
+		q := make([]string, len(ch))
+		for i, s := range ch {
 			q[i] = tx.CoqString(s)
 		}
 		fmt.Fprintf(&b, "  (%s, [%s])", tx.CoqString(k), strings.Join(q, "; "))
